@@ -57,6 +57,13 @@ def oracle(ctx, case, jcase):
     out = real.run_validate(case, normalize=False)
     if out.exc is not None:
         return
+    if case.get('index', 0) % 2 == 0:
+        # what an *of error holds must not depend on whether the errors were rendered (twice) before
+        try:
+            out.v.errors
+            out.v.errors
+        except Exception:
+            pass
     level(ctx, case, jcase, out.v, case['schema'], case['doc'], list(out.errors), (), copy.deepcopy(case.get('cfg', {})), 0)
 
 
@@ -121,6 +128,14 @@ def level(ctx, case, jcase, v, schema, doc, errs, prefix, cfg, depth):
                     ctx.fail('C09 oracle: %s error carries counts %r, standalone validation gives (%d, %d)' %
                              (op, e.info[1:3], n, total), where)
                 de = e.definitions_errors
+                for k, children in de.items():
+                    for c in real.flatten(children):
+                        dp = tuple(c.document_path)
+                        if dp[:len(e.document_path)] != tuple(e.document_path) or \
+                                any(isinstance(x, str) and ' definition ' in x for x in dp):
+                            ctx.fail('C09 oracle: an error of definition %r of the %s error at %r claims the document path %r'
+                                     % (k, op, tuple(e.document_path), dp), where)
+                            return
                 keys = sorted((k for k in de if de[k]), key=lambda k: (not isinstance(k, int), repr(k)))
                 if keys != failing:
                     ctx.fail('C09 oracle: %s error lists failing definitions %r, standalone validation gives %r' %
